@@ -6,6 +6,7 @@ package c16
 import (
 	"bytes"
 	"context"
+	"encoding/json"
 	"errors"
 	"fmt"
 	"io"
@@ -26,8 +27,8 @@ import (
 	"verifharness/hx"
 )
 
-var stats = evid.New("C16", "rapid: (1) TestPropHistory - a universe of 1..10 hierarchical keys over components {a,ab,a-b,a.b,b,A}, depth 1..4, "+
-	"no key a directory-ancestor of another; 5..40 operations (Put overwrite/exclusive through WriterTo or plain Reader sources, Get, GetAt, GetAttr, Has, "+
+var stats = evid.New("C16", "rapid: (1) TestPropHistory - a universe of 1..14 hierarchical keys over components {a,ab,a-b,a.b,b,A}, depth 1..4, "+
+	"no key a directory-ancestor of another; a population phase (exclusive Put of the first p keys) then 5..40 operations (Put overwrite/exclusive through WriterTo or plain Reader sources, Get, GetAt, GetAttr, Has, "+
 	"Has on a directory name, Delete present/absent, Touch, Keys, KeysPrefix paginated to exhaustion with delimiter in {\"\",\"/\"} and page size in 1..8 or 1000 "+
 	"or every page size 1..n+1, abandoned pagination) against a map model on a real OS directory under /dev/shm; prefixes: empty, directory with/without "+
 	"trailing slash, full key, key+\"/\", partial component, missing (parent present / parent missing). (2) TestPropExclusive - 2..8 goroutines Put(exclusive) "+
@@ -68,7 +69,7 @@ type opT struct {
 	// hasdir
 	Dir string `json:"dir,omitempty"`
 	// list / abandon
-	Prefix   string `json:"prefix"`
+	Prefix   string `json:"prefix,omitempty"`
 	Delim    string `json:"delim,omitempty"`
 	Count    int    `json:"count,omitempty"`
 	AllSizes bool   `json:"all_sizes,omitempty"`
@@ -84,16 +85,35 @@ type caseT struct {
 // generators
 
 func drawUniverse(t *rapid.T) []string {
-	n := rapid.IntRange(1, 10).Draw(t, "nkeys")
+	n := rapid.IntRange(1, 14).Draw(t, "nkeys")
 	var keys []string
 	for i := 0; i < n; i++ {
 		var parts []string
-		if len(keys) > 0 && rapid.IntRange(0, 2).Draw(t, "extend") > 0 {
+		mode := 0
+		if len(keys) > 0 {
+			mode = rapid.IntRange(0, 4).Draw(t, "mode") // 0 fresh, 1-2 below a directory of an earlier key, 3-4 sibling of a component of an earlier key
+		}
+		if mode > 0 {
 			base := strings.Split(rapid.SampledFrom(keys).Draw(t, "base"), "/")
 			j := rapid.IntRange(0, len(base)-1).Draw(t, "cut")
 			parts = append(parts, base[:j]...)
+			if mode >= 3 {
+				// a component of which base[j] is a proper string prefix, or which is one of base[j]
+				sib := "a"
+				if base[j] == "a" {
+					sib = rapid.SampledFrom([]string{"ab", "a-b", "a.b"}).Draw(t, "sib")
+				}
+				parts = append(parts, sib)
+			}
 		}
-		extra := rapid.IntRange(1, 4-len(parts)).Draw(t, "extra")
+		lo := 1
+		if len(parts) > 0 && mode >= 3 {
+			lo = 0
+		}
+		extra := 0
+		if len(parts) < 4 {
+			extra = rapid.IntRange(lo, 4-len(parts)).Draw(t, "extra")
+		}
 		for e := 0; e < extra; e++ {
 			parts = append(parts, rapid.SampledFrom(comps).Draw(t, "comp"))
 		}
@@ -143,7 +163,10 @@ func drawPrefix(t *rapid.T, keys []string) string {
 	case "partial":
 		i := rapid.IntRange(0, len(parts)-1).Draw(t, "plevel")
 		c := parts[i]
-		j := rapid.IntRange(1, len(c)).Draw(t, "pbytes")
+		j := 1
+		if len(c) > 1 {
+			j = rapid.IntRange(1, len(c)-1).Draw(t, "pbytes")
+		}
 		return strings.Join(append(append([]string{}, parts[:i]...), c[:j]), "/")
 	default: // missing, missingdeep
 		i := rapid.IntRange(0, len(parts)-1).Draw(t, "plevel")
@@ -176,10 +199,15 @@ func drawSize(t *rapid.T) int {
 }
 
 var opKinds = []string{"put", "put", "put", "putx", "putx", "get", "get", "getat", "getattr", "has", "hasdir", "delete", "delete", "touch", "keys",
-	"list", "list", "list", "list", "list", "list", "abandon"}
+	"list", "list", "list", "list", "list", "list", "abandon", "abandon"}
 
 func drawCase(t *rapid.T) caseT {
 	c := caseT{Keys: drawUniverse(t), Lock: rapid.Bool().Draw(t, "lock")}
+	// population phase: most keys are written first (in universe order), so that listings have something to list
+	populate := len(c.Keys) - rapid.IntRange(0, len(c.Keys)).Draw(t, "unpopulated")
+	for i := 0; i < populate; i++ {
+		c.Ops = append(c.Ops, opT{Kind: "putx", Key: i, Seed: uint64(i) + 1, Size: 3 + i, Src: "writerto"})
+	}
 	nops := rapid.IntRange(5, 40).Draw(t, "nops")
 	for i := 0; i < nops; i++ {
 		op := opT{Kind: rapid.SampledFrom(opKinds).Draw(t, "op")}
@@ -313,7 +341,7 @@ func runCase(c caseT, res *result) error {
 	e := &executor{c: c, s: newStore(sc.Dir("store"), c.Lock), ctx: context.Background(), m: newModel(), res: res}
 	for i, op := range c.Ops {
 		if err := e.step(op); err != nil {
-			return fmt.Errorf("op %d %+v: %v\nmodel keys: %q", i, op, err, e.m.sorted())
+			return fmt.Errorf("op %d %s: %v\nmodel keys: %q", i, js(op), err, e.m.sorted())
 		}
 		res.kinds[op.Kind] = true
 	}
@@ -431,7 +459,7 @@ func (e *executor) step(op opT) error {
 		return e.list(op, false)
 	case "abandon":
 		if hx.Known(idStale) {
-			stats.Count("excluded_"+idStale, 1)
+			e.count("excluded_" + idStale)
 			return nil
 		}
 		return e.list(op, true)
@@ -565,14 +593,14 @@ func (e *executor) list(op opT, abandon bool) error {
 	if slashAffected(keys, op.Prefix, op.Delim) {
 		e.count("class_trailing_slash")
 		if hx.Known(idSlash) {
-			stats.Count("excluded_"+idSlash, 1)
+			e.count("excluded_" + idSlash)
 			return nil
 		}
 	}
 	if parentMissing(e.m, op.Prefix) {
 		e.count("class_parent_missing")
 		if hx.Known(idParent) {
-			stats.Count("excluded_"+idParent, 1)
+			e.count("excluded_" + idParent)
 			return nil
 		}
 	}
@@ -580,7 +608,7 @@ func (e *executor) list(op opT, abandon bool) error {
 	if orderAffected(keys, op.Prefix, op.Delim) {
 		e.count("class_walk_order")
 		if hx.Known(idOrder) {
-			stats.Count("excluded_"+idOrder, 1)
+			e.count("excluded_" + idOrder)
 			unordered = true // the ordering clause is not checked for this listing, exactness still is
 		}
 	}
@@ -691,6 +719,11 @@ func (r *result) sig(c caseT) string {
 	return fmt.Sprintf("lock=%v ops=%s lists=%s", c.Lock, strings.Join(ks, ","), strings.Join(ls, ";"))
 }
 
+func js(v interface{}) string {
+	b, _ := json.Marshal(v)
+	return string(b)
+}
+
 type fataler interface {
 	Fatalf(string, ...interface{})
 }
@@ -701,11 +734,11 @@ func check(t fataler, c caseT) *result {
 	err, hung, panicked := hx.Guard(30*time.Second, func() error { return runCase(c, res) })
 	switch {
 	case hung:
-		t.Fatalf("HANG: %v; case=%+v", err, c)
+		t.Fatalf("HANG: %v\ncase=%s", err, js(c))
 	case panicked:
-		t.Fatalf("PANIC: %v; case=%+v", err, c)
+		t.Fatalf("PANIC: %v\ncase=%s", err, js(c))
 	case err != nil:
-		t.Fatalf("%v\ncase=%+v", err, c)
+		t.Fatalf("%v\ncase=%s", err, js(c))
 	}
 	return res
 }
@@ -889,11 +922,11 @@ func checkConc(t fataler, c concT) {
 	err, hung, panicked := hx.Guard(30*time.Second, func() error { return runConc(c) })
 	switch {
 	case hung:
-		t.Fatalf("HANG: %v; case=%+v", err, c)
+		t.Fatalf("HANG: %v\ncase=%s", err, js(c))
 	case panicked:
-		t.Fatalf("PANIC: %v; case=%+v", err, c)
+		t.Fatalf("PANIC: %v\ncase=%s", err, js(c))
 	case err != nil:
-		t.Fatalf("%v\ncase=%+v", err, c)
+		t.Fatalf("%v\ncase=%s", err, js(c))
 	}
 }
 
